@@ -104,6 +104,7 @@ RANDOM = {
             dict(progs=[P("L", cvw(), "U"), P("G1", "R", cvw(), "RU"), P("G2", "R", cvw(), "RU"), P("G3", "L", "S", "U", "L", "B", "U")], NV=1),
             dict(progs=[P("L", cvl(v=1), "U"), P("R", cvl(v=1), "RU"), P("R", cvl(v=1, dl=2), "RU"), P("L", "set11", "U", "B")], NV=1),
             dict(progs=[P("L", cvl(v=1), "U"), P("G1", "L", "set11", "U", "S"), P("G1", "L", "U")], NV=1),
+            dict(progs=[P("L", cvw(), "U"), P("G1", "R", "S", "RU"), P("G1", "R", "RU"), P("G1", "R", "RU", "L", "U")], NV=1),
             dict(progs=[P("L", cvl(v=1, dl=1), "U"), P("L", wnl(v=1, dl=1), "U"), P("L", "set11", "B", "U"), P("L", "U")], NV=1),
             dict(progs=[P("L", cvl(v=1, dl=1, x=9), "U"), P("L", cvl(v=1, dl=2, x=9), "U"), P("L", "set11", "U", "S")], NV=1, MaxNow=2)],
     "C05": [dict(progs=[P("L", cvl(v=1, dl=1, cn=True), "U"), P("R", mwt(1, dl=2, cn=True), "RU"), P("N"), P("L", "set11", "S", "U")], NV=1, conds=C1),
